@@ -1078,7 +1078,7 @@ func (tr *gtTr) rangeStmt(x *ast.RangeStmt, env *venv, next cont) gnode {
 	ifs, ret := singleIfReturn(x.Body)
 	list := tr.expr(x.X, env)
 	if list.typ.kind == kString && list.typ != tBytes {
-		gtFail("range over the runes of a string is outside the subset")
+		return tr.runeRange(x, env, next)
 	}
 	if list.typ.kind != kSlice && list.typ != tBytes {
 		gtFail("range over a %s is outside the subset", list.typ.name)
@@ -1272,6 +1272,7 @@ type gtState struct {
 	pending      []string          // texts to emit, in dependency order
 	family       string
 	loopTexts    map[string]string // emitted loop functions, by name
+	tableRows    map[string][][2]string // the (key, value) rows of the map literals emitted so far
 	joins        bool              // translate ifs whose branches cannot leave as expressions (joinIf)
 }
 
@@ -1771,6 +1772,27 @@ func (st *gtState) mapTable(g *gen, p *gpkg, name string, user *gtFn) (string, *
 			init = vs.Values[i]
 		}
 	}
+	if src, mt, ok := inverseByInit(p, name, init); ok {
+		// var name = make(map[V]K) filled by `func init() { for k, v := range src { name[v] = k } }`, the only place that
+		// touches it: the inverse of the literal src, whatever order the range takes, provided src's values are distinct
+		srcCoq, srcT := st.mapTable(g, p, src, user)
+		t := g.resolveType(p, f, mt, 0)
+		if t.kind != kMap || !t.supported() || t.usesValue() || t.key.kind != srcT.elem.kind || t.elem.kind != srcT.key.kind {
+			gtFail("package variable %s of type %s is outside the subset", name, t.name)
+		}
+		var rows []string
+		seen := map[string]bool{}
+		for _, r := range st.tableRows[srcCoq] {
+			if seen[r[1]] {
+				gtFail("%s: init() inverts %s, which has two entries with the same value (the result would depend on the order of the range)", name, src)
+			}
+			seen[r[1]] = true
+			rows = append(rows, "("+r[1]+", "+r[0]+")")
+		}
+		st.tables[coq] = t
+		st.pending = append(st.pending, fmt.Sprintf("(* %s: var %s = make(%s), filled by init() as the inverse of %s *)\nDefinition %s : %s :=\n  [%s].\n", p.dir, name, t.name, src, coq, t.coq(), strings.Join(rows, ";\n   ")))
+		return coq, t
+	}
 	cl, ok := init.(*ast.CompositeLit)
 	if !ok || cl.Type == nil {
 		gtFail("package variable %s is not initialised with a map literal", name)
@@ -1803,10 +1825,97 @@ func (st *gtState) mapTable(g *gen, p *gpkg, name string, user *gtFn) (string, *
 		}
 		seen[k.code] = true
 		rows = append(rows, "("+k.code+", "+v.code+")")
+		if st.tableRows == nil {
+			st.tableRows = map[string][][2]string{}
+		}
+		st.tableRows[coq] = append(st.tableRows[coq], [2]string{k.code, v.code})
 	}
 	st.tables[coq] = t
 	st.pending = append(st.pending, fmt.Sprintf("(* %s: var %s = %s{...}, in source order *)\nDefinition %s : %s :=\n  [%s].\n", p.dir, name, t.name, coq, t.coq(), strings.Join(rows, ";\n   ")))
 	return coq, t
+}
+
+// inverseByInit: is the package-level variable `name`, declared as make(map[V]K), touched in exactly one place of the
+// package, namely `for k, v := range src { name[v] = k }` as a top-level statement of a func init(), src another
+// package-level variable?
+func inverseByInit(p *gpkg, name string, init ast.Expr) (src string, mapType ast.Expr, ok bool) {
+	mk, isCall := init.(*ast.CallExpr)
+	if !isCall || !isIdent(mk.Fun, "make") || len(mk.Args) < 1 {
+		return "", nil, false
+	}
+	if _, isMap := mk.Args[0].(*ast.MapType); !isMap {
+		return "", nil, false
+	}
+	var site *ast.AssignStmt
+	for _, f := range p.files {
+		for _, d := range f.Decls {
+			fd, isFn := d.(*ast.FuncDecl)
+			if !isFn || fd.Recv != nil || fd.Name.Name != "init" || fd.Body == nil {
+				continue
+			}
+			for _, st := range fd.Body.List {
+				rs, isRange := st.(*ast.RangeStmt)
+				if !isRange || rs.Tok != token.DEFINE || len(rs.Body.List) != 1 {
+					continue
+				}
+				k, okK := rs.Key.(*ast.Ident)
+				v, okV := rs.Value.(*ast.Ident)
+				m, okM := rs.X.(*ast.Ident)
+				as, okA := rs.Body.List[0].(*ast.AssignStmt)
+				if !okK || !okV || !okM || !okA || as.Tok != token.ASSIGN || len(as.Lhs) != 1 || len(as.Rhs) != 1 || k.Name == "_" || v.Name == "_" || k.Name == v.Name {
+					continue
+				}
+				ix, isIx := as.Lhs[0].(*ast.IndexExpr)
+				if !isIx || !isIdent(ix.X, name) || !isIdent(ix.Index, v.Name) || !isIdent(as.Rhs[0], k.Name) || m.Name == name {
+					continue
+				}
+				if _, isVar := p.vars[m.Name]; !isVar || site != nil {
+					return "", nil, false
+				}
+				site, src = as, m.Name
+			}
+		}
+	}
+	if site == nil {
+		return "", nil, false
+	}
+	// nothing else may touch it
+	others := false
+	for _, f := range p.files {
+		ast.Inspect(f, func(n ast.Node) bool {
+			switch x := n.(type) {
+			case *ast.AssignStmt:
+				if x == site {
+					return true
+				}
+				for _, l := range x.Lhs {
+					if isIdent(l, name) && x.Tok != token.DEFINE {
+						others = true
+					}
+					if ix, ok := l.(*ast.IndexExpr); ok && isIdent(ix.X, name) {
+						others = true
+					}
+				}
+			case *ast.IncDecStmt:
+				if ix, ok := x.X.(*ast.IndexExpr); ok && isIdent(ix.X, name) {
+					others = true
+				}
+			case *ast.UnaryExpr:
+				if x.Op == token.AND && isIdent(x.X, name) {
+					others = true
+				}
+			case *ast.CallExpr:
+				if isIdent(x.Fun, "delete") && len(x.Args) > 0 && isIdent(x.Args[0], name) {
+					others = true
+				}
+			}
+			return true
+		})
+	}
+	if others || assignedElsewhere(p, src) {
+		return "", nil, false
+	}
+	return src, mk.Args[0], true
 }
 
 // assignedElsewhere: is the package-level variable ever the target of an assignment (or has its address taken, or
